@@ -116,9 +116,10 @@ def load_known():
 
 def repo_state():
     try:
-        head = subprocess.check_output(['git', '-C', '/repo', 'rev-parse', 'HEAD'],
+        repo = os.environ.get('VERIF_REPO') or '/repo'
+        head = subprocess.check_output(['git', '-C', repo, 'rev-parse', 'HEAD'],
                                        stderr=subprocess.DEVNULL).decode().strip()
-        dirty = bool(subprocess.check_output(['git', '-C', '/repo', 'status', '--porcelain',
+        dirty = bool(subprocess.check_output(['git', '-C', repo, 'status', '--porcelain',
                                               '--untracked-files=no'],
                                              stderr=subprocess.DEVNULL).decode().strip())
     except Exception:
